@@ -432,13 +432,13 @@ def make_e_snap(params, part, nparts):
                                                                    names[bad[0]], tr['after'][bad[0]], tr['fresh'][bad[0]]),
                             signature='C05:snap:stale')
 
-    def h(L: int, k: int, m: int, w: int):
+    def h(L: int, k: int, m: int, w: int, f: int):
         cL = pick(L, 3) + 2
         ck = pick(k, 3) + 1
         assume(ck < cL)
         cm = pick(m, len(TP.SNAP_MUT))
         assume((cL * len(TP.SNAP_MUT) + cm) % nparts == part)
-        prog = [cL, ck, cm, pick(w, 2)]
+        prog = [cL, ck, cm, pick(w, 2), pick(f, 8)]
         reached(tuple(prog), dict(program=prog))
         native(run, prog)
     return h
